@@ -836,7 +836,42 @@ matrix_subscr(matrix* self, PyObject* args)
 int spmatrix_getitem_ij(spmatrix *, int_t, int_t, number *) ;
 
 static int
+matrix_ass_subscr_impl(matrix* self, PyObject* args, PyObject* val);
+
+static int
 matrix_ass_subscr(matrix* self, PyObject* args, PyObject* val)
+{
+  /* A[A] = x, A[A,J] = x, A[I,A] = x: the index is the matrix that is
+     being modified.  Index with a copy, so that the (validated) indices
+     do not change while they are used. */
+  PyObject *argI = NULL, *argJ = NULL;
+  if (PyTuple_Check(args) && PyTuple_GET_SIZE(args) == 2) {
+    argI = PyTuple_GET_ITEM(args, 0);
+    argJ = PyTuple_GET_ITEM(args, 1);
+  }
+  if (args == (PyObject *)self || argI == (PyObject *)self ||
+      argJ == (PyObject *)self) {
+    int ret;
+    PyObject *newargs;
+    PyObject *copy = (PyObject *)Matrix_NewFromMatrix(self, self->id);
+    if (!copy) return -1;
+    if (args == (PyObject *)self) {
+      ret = matrix_ass_subscr_impl(self, copy, val);
+    } else {
+      newargs = PyTuple_Pack(2, (argI == (PyObject *)self ? copy : argI),
+          (argJ == (PyObject *)self ? copy : argJ));
+      if (!newargs) { Py_DECREF(copy); return -1; }
+      ret = matrix_ass_subscr_impl(self, newargs, val);
+      Py_DECREF(newargs);
+    }
+    Py_DECREF(copy);
+    return ret;
+  }
+  return matrix_ass_subscr_impl(self, args, val);
+}
+
+static int
+matrix_ass_subscr_impl(matrix* self, PyObject* args, PyObject* val)
 {
   matrix *Il = NULL, *Jl = NULL;
   int_t i, j, id = self->id, decref_val = 0;
